@@ -71,6 +71,10 @@ let () = iter_lines (fun line ->
   | [ "icc"; n ] -> Printf.printf "icc %d\n" (int_of_z (icc_bytes (z_of_int (int_of_string n))))
   | [ "bufsize"; w; h; s ] ->
       Printf.printf "bufsize %d\n" (int_of_z (tj3JPEGBufSize (z_of_int (int_of_string w)) (z_of_int (int_of_string h)) (z_of_int (int_of_string s))))
+  | [ "xicc"; src; inst; save; cn; getb; _; _ ] ->
+      let x = { x_save = z_of_int (int_of_string save); x_copynone = (cn = "1"); x_src = z_of_int (int_of_string src);
+                x_inst = z_of_int (int_of_string inst); x_got = (getb = "1") } in
+      Printf.printf "xicc term=%d written=%d\n" (int_of_z (size_term x)) (int_of_z (icc_written x))
   | "blk" :: px ->
       let px = zl (List.map int_of_string px) in
       let cs = il (block_coefs px) in
